@@ -348,6 +348,7 @@ func register(f func()) { extractors = append(extractors, f) }
 func main() {
 	leanOut := flag.String("lean", "Facts.lean", "")
 	jsonOut := flag.String("json", "facts.json", "")
+	flag.StringVar(&propsFile, "props", propsFile, "properties.jsonl (anchor files for the source fingerprints)")
 	flag.Parse()
 	for _, f := range extractors {
 		f()
